@@ -1,9 +1,13 @@
 #!/usr/bin/env python3
-"""Apply each seeded defect to /repo, run the given checks, undo. Usage: tools/seed_matrix.py [SEED ...] [-- CHECK ...]
-Writes seeded/MATRIX.json (merged) — which checks catch which seeded change."""
-import json, subprocess, sys, time
+"""Which checks catch which seeded change.  Usage: tools/seed_matrix.py [SEED ...] [-- CHECK ... | -- all]
+
+Works on a scratch copy of /verif and a scratch worktree of /repo (both under /tmp, removed at the end), so neither /repo
+nor /verif's evidence is touched while it runs: each seed's patch is applied to the worktree, the checks are run from the
+copy with NLV_REPO / PYTHONPATH pointing at the worktree, the worktree is reset.  Results are merged into
+seeded/MATRIX.json.  Without CHECKs a seed is run against the check of its own property only."""
+import json, os, shutil, subprocess, sys, tempfile, time
 from pathlib import Path
-V = Path('/verif')
+V = Path(__file__).resolve().parent.parent
 args = sys.argv[1:]
 if '--' in args:
     i = args.index('--'); seeds, checks = args[:i], args[i+1:]
@@ -11,26 +15,46 @@ else:
     seeds, checks = args, []
 all_seeds = sorted(p.name for p in (V / 'seeded').iterdir() if p.is_dir() and not p.name.startswith('_'))
 seeds = seeds or all_seeds
+claimed = [c['property_id'] for c in json.loads((V / 'MANIFEST.json').read_text())['checks']]
+if checks == ['all']:
+    checks = claimed
 mpath = V / 'seeded' / 'MATRIX.json'
-matrix = json.loads(mpath.read_text()) if mpath.exists() else {}
-for s in seeds:
-    meta = json.loads((V / 'seeded' / s / 'meta.json').read_text())
-    cks = checks or [meta['property']]
-    assert subprocess.run(['git', '-C', '/repo', 'status', '--porcelain'], capture_output=True, text=True).stdout.strip() == '', '/repo not clean'
-    r = subprocess.run(['git', '-C', '/repo', 'apply', str(V / 'seeded' / s / 'patch.diff')])
-    if r.returncode != 0:
-        print(s, 'PATCH DOES NOT APPLY'); continue
-    try:
-        for c in cks:
-            t0 = time.time()
-            p = subprocess.run(['timeout', '1500', str(V / 'check'), c], cwd=V, capture_output=True, text=True)
-            viol = [l for l in p.stdout.splitlines() if l.startswith('VIOLATION')]
-            noinput = [l for l in viol if l.endswith('no-failing-input-found')]
-            res = {'exit': p.returncode, 'violations': len(viol), 'with_failing_input': len(viol) - len(noinput),
-                   'first': (p.stderr.strip().splitlines()[-2:] or [''])[0][:300], 'wall_s': round(time.time() - t0, 1)}
-            matrix.setdefault(s, {})[c] = res
-            print(s, c, 'CAUGHT' if p.returncode == 1 else ('MISSED' if p.returncode == 0 else f'ERROR rc={p.returncode}'), res['with_failing_input'], res['wall_s'], flush=True)
-    finally:
-        subprocess.run(['git', '-C', '/repo', 'checkout', '--', '.'])
-        subprocess.run(['git', '-C', '/repo', 'clean', '-fdq'])
-mpath.write_text(json.dumps(matrix, indent=1))
+base = Path(tempfile.mkdtemp(prefix='nlv-matrix-'))
+wt, vc = base / 'repo', base / 'verif'
+try:
+    subprocess.run(['git', '-C', '/repo', 'worktree', 'add', '-q', '--detach', str(wt), 'HEAD'], check=True)
+    subprocess.run(['rsync', '-a', '--exclude', '.git', '--exclude', 'replays', '--exclude', 'evidence', '--exclude', '__pycache__', f'{V}/', f'{vc}/'], check=True)
+    (vc / 'evidence').mkdir(exist_ok=True)
+    env = dict(os.environ, NLV_REPO=str(wt), PYTHONPATH=str(wt))
+    for s in seeds:
+        meta = json.loads((V / 'seeded' / s / 'meta.json').read_text())
+        cks = checks or [meta['property']]
+        r = subprocess.run(['git', '-C', str(wt), 'apply', str(V / 'seeded' / s / 'patch.diff')])
+        if r.returncode != 0:
+            print(s, 'PATCH DOES NOT APPLY', flush=True); continue
+        try:
+            for c in cks:
+                if c not in claimed:
+                    print(s, c, 'NOT CLAIMED', flush=True); continue
+                t0 = time.time()
+                out = base / f'{s}-{c}.out'
+                with open(out, 'w') as fh:
+                    p = subprocess.run(['setsid', 'timeout', '-k', '10', '1500', str(vc / 'check'), c], cwd=vc, stdout=fh, stderr=subprocess.STDOUT, env=env)
+                lines = out.read_text().splitlines()
+                viol = [k for k, l in enumerate(lines) if l.startswith('VIOLATION')]
+                noinput = [k for k in viol if lines[k].endswith('no-failing-input-found')]
+                first = lines[viol[0] + 1].strip()[:300] if viol and viol[0] + 1 < len(lines) else ''
+                res = {'exit': p.returncode, 'violations': len(viol), 'with_failing_input': len(viol) - len(noinput), 'first': first,
+                       'wall_s': round(time.time() - t0, 1)}
+                matrix = json.loads(mpath.read_text()) if mpath.exists() else {}
+                matrix.setdefault(s, {})[c] = res
+                mpath.write_text(json.dumps(matrix, indent=1, sort_keys=True))
+                print(s, c, 'CAUGHT' if p.returncode == 1 else ('missed' if p.returncode == 0 else f'ERROR rc={p.returncode}'),
+                      res['with_failing_input'], res['wall_s'], flush=True)
+        finally:
+            subprocess.run(['git', '-C', str(wt), 'checkout', '--', '.'])
+            subprocess.run(['git', '-C', str(wt), 'clean', '-fdq'])
+finally:
+    subprocess.run(['git', '-C', '/repo', 'worktree', 'remove', '--force', str(wt)], capture_output=True)
+    shutil.rmtree(base, ignore_errors=True)
+    subprocess.run(['git', '-C', '/repo', 'worktree', 'prune'])
